@@ -82,6 +82,15 @@ func (w *storeWorld) publish(key string, layers [][]byte, config []byte) *pullMo
 	return spec
 }
 
+// publishSparse republishes spec's manifest without its "config" key.
+func (w *storeWorld) publishSparse(spec *pullModelSpec) {
+	spec.config = nil
+	spec.man.Config = Layer{}
+	mb, _ := json.Marshal(map[string]any{"schemaVersion": spec.man.SchemaVersion, "mediaType": spec.man.MediaType, "layers": spec.man.Layers})
+	w.reg.manifests[spec.key] = mb
+	verifsim.Probe("manifest_without_config")
+}
+
 func (w *storeWorld) manifestFile(name string) string {
 	// registry.sim/lib/m0:latest -> manifests/registry.sim/lib/m0/latest
 	return filepath.Join(w.dir, "manifests", strings.Replace(name, ":", "/", 1))
@@ -345,6 +354,14 @@ func runPull(t *testing.T, tape *verifsim.Tape, prop, tier string, keepLog bool)
 				} else {
 					specs[i] = mkModel(i, "latest")
 					specs[i].prev = old
+					if seed%3 == 0 && !sharedArm {
+						// the new version is published without a "config" object (the
+						// pull path supports such manifests): a key the previous
+						// version of the tag had is absent from what is served now.
+						// Chosen from the content seed, not a new draw, so that tapes
+						// recorded before this arm existed decode as before.
+						w.publishSparse(specs[i])
+					}
 				}
 				for _, l := range append(append([]Layer{}, old.man.Layers...), old.man.Config) {
 					w.staleDigests[l.Digest] = true
@@ -493,7 +510,7 @@ func TestVerifStore(t *testing.T) {
 			"gin router and handlers (POST /api/pull etc. through router.ServeHTTP)", "net/http client (redirect handling, bodies) over an in-memory RoundTripper", "real files on tmpfs through the vfs pass-through"},
 		Stub: []string{"registry / CDN / auth servers (simRegistry: protocol state + tape-drawn faults)", "TCP/TLS (no sockets)", "process death = freeze + unwind (no power-loss reordering)"},
 		Rule: map[string]string{
-			"C03": "one evaluation = one simulated execution: 1-3 published models (1-4 layers of 0-200 KB, shared layers, optional tag update), 1-7 phases of 1-2 concurrent POST /api/pull attempts with tape-drawn interrupts, a tape-drawn subset of 17 network fault kinds at a tape-drawn rate, part size 1-64 KB, then up to three fault-free retries per model; non-trivial = at least two tasks runnable at some step and at least one network request; distinct = different hash of the (task,label,time) decision sequence",
+			"C03": "one evaluation = one simulated execution: 1-3 published models (1-4 layers of 0-200 KB, shared layers, optional tag update or roll-back, a third of the updates republished without a config object), 1-7 phases of 1-2 concurrent POST /api/pull attempts with tape-drawn interrupts, a tape-drawn subset of 17 network fault kinds at a tape-drawn rate, part size 1-64 KB, then up to three fault-free retries per model; non-trivial = at least two tasks runnable at some step and at least one network request; distinct = different hash of the (task,label,time) decision sequence",
 			"C12": "one case = a tape-drawn prior history of 0-5 fault-free API operations (the C04 generator: shared layers, case variants, restarts) followed by one target operation (pull of a new / updated / layer-sharing model in 256 B-4 KB parts, create from files, create FROM, re-create, copy, delete); the case is executed once uninterrupted to count its crash points (every mutating file-system call of the operation, plus a torn variant of every data write) and then once per crash point (all of them up to 150 quick / 600 thorough, otherwise a stratified tape-drawn sample): freeze the world there, unwind, restart through the repository's own start-up sequence, audit, repeat the operation, restart again, compare with the uninterrupted run; one evaluation = one such execution; non-trivial = the case has at least one crash point; distinct = different hash of the decision sequence (every crash point yields a different one)",
 			"C09": "legacy push stage: one evaluation = one simulated execution of 1-3 phases of 1-2 concurrent POST /api/push requests for 1-3 locally created models (shared layers, upload part size 64 B-16 KB so that blobs are uploaded in several PATCH/direct-PUT parts) against the simulated registry with tape-drawn upload faults (rejected parts, lost upload location, rejected commit, rejected manifest PUT, 5xx/429/connection errors, auth) and client interrupts; the simulated registry checks at every manifest PUT that every named layer has been committed with matching content",
 			"C10": "API stage: one evaluation = one simulated execution in which 1-4 fault-derivatives of a valid GGUF file (truncation at a tape-drawn offset, flipped byte, 32/64-bit fields overwritten with boundary values, header counts overwritten) are uploaded with POST /api/blobs and used by POST /api/create, or written over the stored model file of a healthy model before POST /api/show, GET /api/tags and POST /api/create FROM; every request must be answered, no goroutine may panic (create decodes outside gin's recovery), and afterwards the server still lists models and creates a healthy one",
